@@ -29,6 +29,8 @@ def c02_relevant(kind, rec, case):
 HOOK_COMMITS = [
     "e321c05af721a8d9561389c159d6dfceedd0897d",
     "d74f5a917363a9bc2d3a5d81e0e790775a0fb827",
+    "c4459971472dd072f36422595d14d0accf522f97",
+    "98eed37a9ece2b904c22e16ba539aeee0c9108c3",
 ]
 
 LEVEL_NOTE_COMMON = (
